@@ -36,7 +36,8 @@ def drive(prob, calls):
     err = None
     for c in calls:
         try:
-            exec(c, dict(opt=opt, d=d, poke_views=poke_views))
+            with deadline(120):
+                exec(c, dict(opt=opt, d=d, poke_views=poke_views))
         except TypeError:
             raise
         except Exception as ex:
